@@ -185,7 +185,11 @@ func runCheck(id, tier string) int {
 		full := fullName(r.Harness)
 		fn := prog.Funcs[full]
 		if fn == nil {
-			c.incon = append(c.incon, "harness not found: "+full)
+			msg := "harness not found: " + full
+			for f, e := range prog.DroppedHarness {
+				msg += "; harness file " + f + " does not compile against this tree (" + e + ")"
+			}
+			c.incon = append(c.incon, msg)
 			continue
 		}
 		ex := eng.NewExplorer(prog, full)
